@@ -60,7 +60,10 @@ fn main() {
         let results = dagrepo::par_cases(&*ctx, |ctx, i| -> dagrepo::CaseOut {
             let mut rng = ctx.rng(i);
             let thorough = ctx.tier == "thorough";
-            let n = if rng.chance(1, 12) {
+            let n = if i < 2 {
+                // fixed corpus cases (conflicted bookmark named like the shortest prefix)
+                rng.range(12, 40) as usize
+            } else if rng.chance(1, 12) {
                 rng.range(0, 3) as usize
             } else {
                 rng.range(8, if thorough { 300 } else { 110 }) as usize
@@ -148,31 +151,127 @@ fn main() {
                 let commit_hex: Vec<String> = order.iter().map(|id| id.hex()).collect();
                 let change_hex: Vec<String> =
                     (0..total).map(|p| commit_at(p).change_id().hex()).collect();
-                // bookmarks named like commit id prefixes
-                let index0 = repo.index();
-                let mut names: Vec<String> = vec![];
-                if total > 3 && rng.chance(2, 3) {
-                    let mut tx = repo.start_transaction();
-                    for _ in 0..1 + rng.usize(3) {
+                // disambiguation set (chosen first: the displayed lengths depend on it)
+                let dis: Option<Vec<usize>> = if total > 2 && rng.chance(2, 3) {
+                    let d = *rng.pick(&[10u64, 30, 60]);
+                    Some((0..total).filter(|_| rng.below(100) < d).collect())
+                } else {
+                    None
+                };
+                let make_context = || match &dis {
+                    Some(d) => IdPrefixContext::default().disambiguate_within(
+                        RevsetExpression::commits(d.iter().map(|&p| order[p].clone()).collect()),
+                    ),
+                    None => IdPrefixContext::default(),
+                };
+                // local bookmarks and tags named like id prefixes (hex for commit ids, reverse
+                // hex for change ids): exactly the displayed length, one shorter, one longer; in
+                // the states normal / conflicted / conflicted with an absent side / deleted
+                const REVERSE_HEX: &[u8; 16] = b"zyxwvutsrqponmlk";
+                let to_reverse = |hex: &str| -> String {
+                    hex.bytes()
+                        .map(|b| REVERSE_HEX[(b as char).to_digit(16).unwrap() as usize] as char)
+                        .collect()
+                };
+                // (is_tag, name as written) -> state; 3 = deleted
+                let mut ref_state: HashMap<(bool, String), u8> = HashMap::new();
+                let mut ref_hex: HashMap<String, (bool, String)> = HashMap::new(); // name -> (is change style, hex)
+                let mut conflicted_refs = false;
+                if total > 3 && (i < 2 || rng.chance(3, 5)) {
+                    let context0 = make_context();
+                    let pindex0 = context0.populate(repo.as_ref()).unwrap();
+                    let mut plans: Vec<(bool, String, u8)> = vec![];
+                    let nrefs = if i < 2 { 1 } else { 2 + rng.usize(5) };
+                    for r in 0..nrefs {
                         let p = rng.usize(total);
-                        let l = index0
-                            .shortest_unique_commit_id_prefix_len(&order[p])
-                            .block_on()
-                            .unwrap();
-                        for extra_len in 0..1 + rng.usize(3) {
-                            let len = (l.max(1) + extra_len).min(commit_hex[p].len());
-                            let name = commit_hex[p][..len].to_string();
-                            tx.repo_mut().set_local_bookmark_target(
-                                name.as_str().as_ref(),
-                                RefTarget::normal(order[rng.usize(total)].clone()),
-                            );
-                            if !names.contains(&name) {
-                                names.push(name);
+                        let change_style = if i < 2 { i == 1 } else { rng.chance(1, 2) };
+                        let (hex, l) = if change_style {
+                            let c = commit_at(p);
+                            let l = pindex0
+                                .shortest_change_prefix_len(repo.as_ref(), c.change_id())
+                                .block_on()
+                                .unwrap();
+                            (change_hex[p].clone(), l)
+                        } else {
+                            let l = pindex0
+                                .shortest_commit_prefix_len_exact(repo.as_ref(), &order[p])
+                                .unwrap();
+                            (commit_hex[p].clone(), l)
+                        };
+                        let delta: i64 = if i < 2 { 0 } else { rng.below(3) as i64 - 1 };
+                        let len = ((l as i64 + delta).max(1) as usize).min(hex.len());
+                        let hexp = hex[..len].to_string();
+                        let name = if change_style { to_reverse(&hexp) } else { hexp.clone() };
+                        let state = if i < 2 { 1 } else { rng.below(4) as u8 };
+                        let is_tag = if i < 2 { false } else { rng.chance(1, 2) };
+                        ref_hex.insert(name.clone(), (change_style, hexp));
+                        plans.push((is_tag, name, state));
+                        let _ = r;
+                    }
+                    let mut tx = repo.start_transaction();
+                    for (is_tag, name, state) in &plans {
+                        let a = order[rng.usize(total)].clone();
+                        let mut b = order[rng.usize(total)].clone();
+                        let mut base = order[rng.usize(total)].clone();
+                        // three distinct commits make a genuine conflict
+                        let mut guard = 0;
+                        while (b == a || base == a || base == b) && guard < 50 {
+                            b = order[rng.usize(total)].clone();
+                            base = order[rng.usize(total)].clone();
+                            guard += 1;
+                        }
+                        let target = match state {
+                            1 => RefTarget::from_merge(jj_lib::merge::Merge::from_removes_adds(
+                                vec![Some(base)],
+                                vec![Some(a), Some(b)],
+                            )),
+                            2 => RefTarget::from_merge(jj_lib::merge::Merge::from_removes_adds(
+                                vec![Some(base)],
+                                vec![Some(a), None],
+                            )),
+                            _ => RefTarget::normal(a),
+                        };
+                        if *state == 1 || *state == 2 {
+                            conflicted_refs = true;
+                        }
+                        if *is_tag {
+                            tx.repo_mut().set_local_tag_target(name.as_str().as_ref(), target);
+                        } else {
+                            tx.repo_mut().set_local_bookmark_target(name.as_str().as_ref(), target);
+                        }
+                        ref_state.insert((*is_tag, name.clone()), *state);
+                    }
+                    repo = tx.commit("c20 refs").block_on().unwrap();
+                    // deleted refs: set in one operation, removed in the next
+                    if plans.iter().any(|(_, _, st)| *st == 3) {
+                        let mut tx = repo.start_transaction();
+                        for (is_tag, name, _) in plans.iter().filter(|(t, n, _)| ref_state[&(*t, n.clone())] == 3) {
+                            if *is_tag {
+                                tx.repo_mut().set_local_tag_target(name.as_str().as_ref(), RefTarget::absent());
+                            } else {
+                                tx.repo_mut().set_local_bookmark_target(name.as_str().as_ref(), RefTarget::absent());
                             }
                         }
+                        repo = tx.commit("c20 refs deleted").block_on().unwrap();
                     }
-                    repo = tx.commit("c20 bookmarks").block_on().unwrap();
                 }
+                // what the view says now: a name shadows iff its bookmark or tag is not absent
+                let mut commit_names: Vec<String> = vec![];
+                let mut change_names: Vec<String> = vec![];
+                for (name, (change_style, hexp)) in &ref_hex {
+                    let present = !repo.view().get_local_bookmark(name.as_str().as_ref()).is_absent()
+                        || !repo.view().get_local_tag(name.as_str().as_ref()).is_absent();
+                    let expect = [false, true].iter().any(|t| {
+                        ref_state.get(&(*t, name.clone())).is_some_and(|st| *st != 3)
+                    });
+                    assert_eq!(present, expect, "view does not hold the refs as set");
+                    if present {
+                        if *change_style { change_names.push(hexp.clone()) } else { commit_names.push(hexp.clone()) }
+                    }
+                }
+                commit_names.sort();
+                change_names.sort();
+                let names_present = !commit_names.is_empty() || !change_names.is_empty();
                 // segments (oldest level first in stats), visible set
                 let ro: &DefaultReadonlyIndex = repo.readonly_index().downcast_ref().unwrap();
                 assert_eq!(ro.num_commits() as usize, total, "index holds unknown commits");
@@ -197,19 +296,7 @@ fn main() {
                     start += cnt;
                 }
                 segs.reverse(); // newest first
-                // disambiguation set
-                let dis: Option<Vec<usize>> = if total > 2 && rng.chance(2, 3) {
-                    let d = *rng.pick(&[10u64, 30, 60]);
-                    Some((0..total).filter(|_| rng.below(100) < d).collect())
-                } else {
-                    None
-                };
-                let context = match &dis {
-                    Some(d) => IdPrefixContext::default().disambiguate_within(
-                        RevsetExpression::commits(d.iter().map(|&p| order[p].clone()).collect()),
-                    ),
-                    None => IdPrefixContext::default(),
-                };
+                let context = make_context();
                 let pindex = context.populate(repo.as_ref()).unwrap();
                 let index = repo.index();
                 let mut qs: Vec<String> = vec![];
@@ -273,14 +360,6 @@ fn main() {
                     if l2 >= 1 {
                         q_res_commit(&mut qs, &commit_hex[p][..l2 - 1]);
                     }
-                    if !names.is_empty() {
-                        let l3 = pindex.shortest_commit_prefix_len(repo.as_ref(), &order[p]).unwrap();
-                        qs.push(format!(
-                            "QRefsLen {} [{}] {l2} {l3}",
-                            dg(&commit_hex[p]),
-                            names.iter().map(|s| dg(s)).collect::<Vec<_>>().join("; ")
-                        ));
-                    }
                     q_res_commit(&mut qs, &random_prefix(&mut rng, &commit_hex));
                     // change ids
                     let c = commit_at(p);
@@ -290,7 +369,6 @@ fn main() {
                         .shortest_change_prefix_len(repo.as_ref(), c.change_id())
                         .block_on()
                         .unwrap();
-                    qs.push(format!("QShortChange2 {} {lc2}", dg(&change_hex[p])));
                     q_res_change(&mut qs, &change_hex[p][..lc2.min(change_hex[p].len())]);
                     if lc2 >= 1 {
                         q_res_change(&mut qs, &change_hex[p][..lc2 - 1]);
@@ -301,20 +379,23 @@ fn main() {
                     }
                     q_res_change(&mut qs, &random_prefix(&mut rng, &change_hex));
                 }
-                // bookmarks named like ids: queries for exactly those commits
-                for name in &names {
-                    if let Some(p) = (0..total).find(|&p| commit_hex[p].starts_with(name.as_str())) {
-                        let l2 = pindex.shortest_commit_prefix_len_exact(repo.as_ref(), &order[p]).unwrap();
-                        let l3 = pindex.shortest_commit_prefix_len(repo.as_ref(), &order[p]).unwrap();
-                        qs.push(format!(
-                            "QRefsLen {} [{}] {l2} {l3}",
-                            dg(&commit_hex[p]),
-                            names.iter().map(|s| dg(s)).collect::<Vec<_>>().join("; ")
-                        ));
+                // the displayed (ref-aware) length of every commit id and every change id
+                let mut seen_changes: HashSet<String> = HashSet::new();
+                for p in 0..total {
+                    let l2 = pindex.shortest_commit_prefix_len_exact(repo.as_ref(), &order[p]).unwrap();
+                    let l3 = pindex.shortest_commit_prefix_len(repo.as_ref(), &order[p]).unwrap();
+                    qs.push(format!("QRefsLen {} {l2} {l3}", dg(&commit_hex[p])));
+                    if seen_changes.insert(change_hex[p].clone()) {
+                        let c = commit_at(p);
+                        let lc3 = pindex
+                            .shortest_change_prefix_len(repo.as_ref(), c.change_id())
+                            .block_on()
+                            .unwrap();
+                        qs.push(format!("QRefsLenChange {} {lc3}", dg(&change_hex[p])));
                     }
                 }
                 let term = format!(
-                    "(mk_case [{}] {} {} {} [{}] false)%nat",
+                    "(mk_case [{}] {} {} {} [{}] [{}] [{}] false)%nat",
                     segs.join("; "),
                     dagrepo::coq_nats(&vis),
                     match &dis {
@@ -331,20 +412,22 @@ fn main() {
                         ),
                         None => "None".to_string(),
                     },
+                    commit_names.iter().map(|s| dg(s)).collect::<Vec<_>>().join("; "),
+                    change_names.iter().map(|s| dg(s)).collect::<Vec<_>>().join("; "),
                     qs.iter().map(|q| format!("({q})")).collect::<Vec<_>>().join("; ")
                 );
                 let hidden = total - vis.len();
-                (term, total, levels.len(), hidden, dis.is_some(), !names.is_empty(), qs.len())
+                (term, total, levels.len(), hidden, dis.is_some(), names_present, conflicted_refs, qs.len())
             });
             match res {
-                Some((term, total, nlevels, hidden, dis, names, nq)) => {
+                Some((term, total, nlevels, hidden, dis, names, conflicted, nq)) => {
                     let shape_s = format!(
                         "n{} segs{} {}{}{}",
                         match total { 0..=4 => "<=4", 5..=40 => "5-40", 41..=120 => "41-120", _ => ">120" },
                         nlevels.min(4),
                         if hidden > 0 { "hidden " } else { "" },
                         if dis { "disambig " } else { "" },
-                        if names { "refs" } else { "" }
+                        if conflicted { "refs+conflicted" } else if names { "refs" } else { "" }
                     );
                     dagrepo::CaseOut {
                         term,
@@ -354,7 +437,7 @@ fn main() {
                     }
                 }
                 None => dagrepo::CaseOut {
-                    term: "(mk_case [] [] None None [] true)".to_string(),
+                    term: "(mk_case [] [] None None [] [] [] true)".to_string(),
                     nontrivial: false,
                     shape: "panic".to_string(),
                     panicked: true,
